@@ -247,6 +247,43 @@ def run_matrix(ctx, rng, classes, per_class):
                               dict(snd=snd, rcv=rcv))
 
 
+def switches_change_on_a_live_connection(ctx, rng, rounds):
+    """the switches are read from the connection's configuration for EVERY exception: a configuration edited on a live connection
+    (after exceptions have already crossed it in this direction) governs the next exception - disclosure by the sender's
+    current switches, re-creation of custom classes by the receiver's current ones"""
+    import rpyc
+    base_snd = dict(propagate_KeyboardInterrupt_locally=False, propagate_SystemExit_locally=False, allow_public_attrs=True)
+    for r in range(rounds):
+        si, ri = rng.randrange(4), rng.randrange(4)
+        snd = dict(base_snd, include_local_traceback=bool(si & 1), include_local_version=bool(si & 2))
+        rcv = dict(instantiate_custom_exceptions=bool(ri & 1), import_custom_exceptions=bool(ri & 2))
+        box = {}
+        pair = vnet.ServedPair(rpyc.VoidService(), make_service(box)(), cfg_a=rcv, cfg_b=snd)
+        try:
+            root = pair.a.root
+            for step in range(5):
+                if step:
+                    # edit the live configuration of both sides (each switch flips with probability one half)
+                    for k in ("include_local_traceback", "include_local_version"):
+                        if rng.random() < .5:
+                            snd[k] = not snd[k]
+                    for k in ("instantiate_custom_exceptions", "import_custom_exceptions"):
+                        if rng.random() < .5:
+                            rcv[k] = not rcv[k]
+                    pair.b._config.update(snd)
+                    pair.a._config.update(rcv)
+                    ctx.count("configuration_edits_on_a_live_connection")
+                for raised, custom in ((KeyError("k", step), None), (CustomErr("m", step), "imported"), (StopIteration(), None),
+                                       (ValueError(("v", step)), None)):
+                    one_case(ctx, pair, root, box, raised, dict(snd), dict(rcv), custom=custom)
+            root = None
+        finally:
+            box.clear()
+            pair.close()
+        if ctx.enough():
+            return
+
+
 def second_hand_case(ctx, root, raised, cls, snd, rcv):
     """an exception that the peer itself received over the connection (raised by the requester's callback) and lets through:
     it still has to surface as the same built-in class with the same arguments"""
@@ -524,6 +561,8 @@ def run(ctx):
         rng.shuffle(classes)
     # thorough: every shard walks the whole class x switch matrix with its own argument samples (8 per class and switch setting)
     run_matrix(ctx, rng, classes, per_class=2 if ctx.quick else 8)
+    if not ctx.enough():
+        switches_change_on_a_live_connection(ctx, rng, ctx.budget(12, 2400))
     if not ctx.enough():
         canary_import_cases(ctx, rng, ctx.budget(16, 3200))
     if not ctx.enough():
